@@ -13,8 +13,8 @@ RULE = ('generated dense dataset directories loaded through TemplateModel: integ
         'matrix / amplitudes / positions / features (exact regime), ids without spikes at the start, middle, END, both '
         'ends, the two highest, all but one; curated (merge / split / move / gapped ids) and uncurated spike clusters; '
         'unit factors {1, 2, 0.5, 2.5}; rates {100, 1000, 25000, 30000}; feature stores full / subset / absent with '
-        'rows whose positive part vanishes; per-id amplitude sums divisible by the counts or not (final divisions '
-        'reproduced with PrimFloat); peak-to-peak ties between channels and extreme-value ties between samples. '
+        'rows whose positive part vanishes or sums to a power of two or neither; per-id amplitude sums divisible by the counts '
+        'or not; peak-to-peak ties between channels and extreme-value ties between samples. '
         'Corpus and axis product first, then seeded random. Non-trivial = the dataset loads and both '
         'get_amplitudes_true calls return; distinct = distinct abstract dataset (+ factor).')
 EXHAUSTIVE = {'quick': False, 'thorough': False}
@@ -31,10 +31,10 @@ CLAUSES = {
 }
 TRUSTED = ['np.load/np.save, TemplateModel loading (C04) and cluster_waveforms (C08): the stored arrays are read from the '
            'loaded model before the calls', 'np.matmul / np.bincount / np.unique / np.argmax / np.ravel_multi_index as documented',
-           'Coq primitive floats (PrimFloat) reproduce each binary64 multiplication / division / addition of the code, in its order']
+           'observed binary64 values are converted to exact rationals and must lie within 2^-48 relative of the exact model value (NaN must be NaN): a few correctly rounded operations in any order are accepted, anything larger is not']
 ASSUMES = ['dense templates; amplitudes.npy present; a feature store, when present, comes with pc_feature_ind.npy',
-           'exact regime: integer stored values (|template| < 2^24, float32-exact), first-PC positive squares summing to a '
-           'power of two or to zero; unit factor and sampling rate positive and finite',
+           'exact regime: integer stored values (|template| < 2^24, float32-exact), non-negative channel y positions (no '
+           'cancellation in the depth sum); unit factor and sampling rate positive and finite',
            'no array axis of length 1 (phylib squeezes every array it loads)']
 TIMEOUT = {'quick': 20, 'thorough': 30}
 
@@ -53,6 +53,32 @@ def _case(rng, **o):
                    'vec2d': o.get('vec2d', rng.random() < 0.2)}}}
 
 
+def _big(rng, n):
+    """n spikes repeating a period of K spikes (K a multiple of the number of templates)"""
+    nt = 2
+    k = nt * rng.randint(2, 4)
+    sem = G.gen(rng, curated=False, nt=nt, nc=rng.randint(3, 4), nsw=2, nspk=k, features='full', vanish=0.25, wmi='none',
+                empty='none', probes=False, shanks=False)
+    sem['spike_templates'] = [j % nt for j in range(k)]
+    return {'kind': 'depths_big', 'inp': {'sem': sem, 'n': n, 'render': {'id_dtype': rng.choice(ID_DTYPES), 'tmpl_dtype': 'float32',
+                                                                       'vec2d': False}}}
+
+
+def _tile(sem, n):
+    """the periodic dataset of n spikes"""
+    k = sem['n_spikes']
+    s = copy.deepcopy(sem)
+    s['n_spikes'] = n
+    s['spike_samples'] = list(range(n))
+    for key in ('spike_templates', 'amplitudes'):
+        s[key] = [sem[key][j % k] for j in range(n)]
+    s['spike_clusters'] = None
+    f = s['features']
+    f['data'] = [sem['features']['data'][j % k] for j in range(n)]
+    f['rows'] = None
+    return s
+
+
 def generate(tier, rng):
     cases = []
     # corpus ---------------------------------------------------------------------------------------------
@@ -68,6 +94,9 @@ def generate(tier, rng):
               dict(wmi='file', div=False), dict(neg_amp=True), dict(probes=True, ties=True), dict(shanks=True, curated=True)]:
         for _ in range(2):
             cases.append(_case(rng, **o))
+    # (c) the batch loop of get_depths (50000 spikes per batch): periodic datasets around the batch size
+    for n in {'quick': (50001, 100000), 'thorough': (50000, 50001, 99999, 100000, 100001, 150003), 'search': (50001, 100001)}[tier]:
+        cases.append(_big(rng, n))
     n_axis, n_rand = {'quick': (1, 170), 'thorough': (8, 4500), 'search': (2, 1500)}[tier]
     # axis product: empty-id position x curated x factor, and rate x features, each completed at random
     for _ in range(n_axis):
@@ -110,6 +139,8 @@ def run_case(case):
     import numpy as np
     from phylib.io.model import TemplateModel
     i = case['inp']
+    if case['kind'] == 'depths_big':
+        return _run_big(case)
     ds = D.render(i['sem'], None, **i['render'])
     d = tempfile.mkdtemp(prefix='c09_', dir=os.environ.get('VT_WORK') or None)
     try:
@@ -148,6 +179,34 @@ def run_case(case):
         }
         m.close()
         return ('ok', snap, obs)
+    finally:
+        shutil.rmtree(d, ignore_errors=True)
+
+
+def _run_big(case):
+    import numpy as np
+    from phylib.io.model import TemplateModel
+    i = case['inp']
+    k = i['sem']['n_spikes']
+    ds = D.render(_tile(i['sem'], i['n']), None, **i['render'])
+    d = tempfile.mkdtemp(prefix='c09b_', dir=os.environ.get('VT_WORK') or None)
+    try:
+        m = TemplateModel(**D.materialise(ds, d))
+        sf = m.sparse_features
+        snap = {'pos': _toks(np.array(m.channel_positions)), 'data': _toks(np.array(sf.data[:k])),
+                'cols': [[int(x) for x in r] for r in np.array(sf.cols)], 'st': [int(x) for x in m.spike_templates[:k]],
+                'n': int(m.n_spikes),
+                # the loaded arrays really are the period repeated (else the per-period oracle would not apply)
+                'periodic': bool(all(np.array_equal(sf.data[j:j + k], sf.data[:min(k, m.n_spikes - j)])
+                                     for j in range(0, m.n_spikes, k)) and
+                                 np.array_equal(m.spike_templates, np.resize(m.spike_templates[:k], m.n_spikes)))}
+
+        def depths():
+            r = m.get_depths()
+            return None if r is None else {'v': [D.tok(float(x)) for x in r]}
+        obs = {'depths': _try(depths)}
+        m.close()
+        return ('big', snap, obs)
     finally:
         shutil.rmtree(d, ignore_errors=True)
 
@@ -199,10 +258,27 @@ def _tk(t):
     return D.coq_tok(tuple(t) if isinstance(t, list) else t)
 
 
+def _tl_chunked(l, size=400):
+    """long lists are written as concat [[..]; [..]] (Coq's list notation overflows the stack on 50 000 items)"""
+    if len(l) <= size:
+        return _tl(l)
+    return '(List.concat %s)' % q.lst([l[j:j + size] for j in range(0, len(l), size)], _tl)
+
+
 def encode(case, obs):
     if obs[0] == 'crash':
         return 'InBad', 'ObsCrash'
     _, s, o = obs
+    if obs[0] == 'big':
+        if not s['periodic']:
+            raise ValueError('C09 regime: the tiled dataset did not load as a periodic one')
+        cin = '(InBig %s %s %s %s %s)' % (_zll(s['pos']), _zlll(s['data']), q.zll(s['cols']), q.zl(s['st']), q.z(s['n']))
+        dep = o['depths']
+        if _raised(dep):
+            return cin, '(ObsBig None)'
+        if dep is None:
+            return cin, '(ObsBig (Some None))'
+        return cin, '(ObsBig (Some (Some %s)))' % _tl_chunked(dep['v'])
     if s['tcols']:
         raise ValueError('C09 regime: sparse templates generated')
     feat = 'None'
@@ -234,11 +310,16 @@ def encode(case, obs):
 
 
 def nontrivial(case, obs):
+    if obs[0] == 'big':
+        return not _raised(obs[2]['depths']) and obs[2]['depths'] is not None
     return obs[0] == 'ok' and not _raised(obs[2]['amp_t']) and not _raised(obs[2]['amp_c'])
 
 
 def dist(case, obs):
     i = case['inp']
+    if case['kind'] == 'depths_big':
+        return ['kind=depths_big', 'big.n_spikes=%d' % i['n'], 'big.period=%d' % i['sem']['n_spikes'],
+                'big.outcome=%s' % (obs[0] if obs[0] != 'big' else ('raised' if _raised(obs[2]['depths']) else 'array'))]
     sem = i['sem']
     o = sem['opts']
     out = ['curated=%s' % o['curated'], 'empty_ids=%s' % o['empty'], 'wmi=%s' % o['wmi'], 'features=%s' % o['features'],
@@ -269,6 +350,8 @@ def dist(case, obs):
 
 def shrink(case):
     i = case['inp']
+    if case['kind'] == 'depths_big':
+        return
     sem = i['sem']
     for k in range(sem['n_spikes']):
         s = G.drop_spike(sem, k)
@@ -298,12 +381,22 @@ def shrink(case):
 
 
 def size(case):
+    if case['kind'] == 'depths_big':
+        return 10 ** 6 + case['inp']['n']
     sem = case['inp']['sem']
     return sem['n_spikes'] * 10 + sem['n_templates'] * sem['n_samples_wf'] * sem['n_channels'] + \
         (50 if sem.get('features') else 0) + (30 if sem.get('spike_clusters') else 0)
 
 
 def repro(case):
+    if case['kind'] == 'depths_big':
+        return ("import sys; sys.path[:0] = ['/verif/harness', '/repo']\n"
+                "from vt import npshim; npshim.setup_process()\n"
+                "from vt.props import c09\n"
+                "tag, snap, obs = c09.run_case(%r)\n"
+                "v = obs['depths']['v']; k = len(snap['st'])\n"
+                "print([j for j in range(len(v)) if v[j] != v[j %% k]][:10], 'spikes whose depth differs from the depth of the same pattern in the first period')\n"
+                % (case,))
     return ("import sys, tempfile; sys.path[:0] = ['/verif/harness', '/repo']\n"
             "from vt import npshim, datasets as D; npshim.setup_process()\n"
             "from phylib.io.model import TemplateModel\n"
